@@ -54,7 +54,7 @@ def ingest(pid, which, srcroot="/tmp/seed", base=None):
             shutil.copy(os.path.join(src, f), os.path.join(wt, target_dir, f))
             placed.append(os.path.join(target_dir, f))
         cmd = meta["demo_cmd"]
-        cmd = cmd.replace("/tmp/seed/wt-%s" % pid, wt).replace("/tmp/seed2/wt-%s" % pid, wt).replace("/tmp/seed3/wt-%s" % pid, wt)
+        cmd = cmd.replace("/tmp/seed/wt-%s" % pid, wt).replace("/tmp/seed2/wt-%s" % pid, wt).replace("/tmp/seed3/wt-%s" % pid, wt).replace("/tmp/seed4/wt-%s" % pid, wt).replace("/tmp/seed5/wt-%s" % pid, wt)
         if "cd " not in cmd:
             cmd = "cd %s && %s" % (wt, cmd)
         # without the change
